@@ -133,7 +133,7 @@ def _translate_glob(pattern):
             re_patterns.append("/?" + ".*/?".join(split_re))
         else:
             re_patterns.append("/" + _translate(component))
-    re_glob = "(?ms)^" + "".join(re_patterns) + ("/$" if pattern.endswith("/") else "$")
+    re_glob = "(?s)^" + "".join(re_patterns) + ("/\\Z" if pattern.endswith("/") else "\\Z")
     return pattern.count("/") + 1 if not recursive else None, re_glob
 
 
